@@ -779,6 +779,7 @@ def WFrame.wf (f : WFrame) (k : Nat × Bool) : Bool :=
 structure WEcu where
   name : Str
   comment : Option Str := none
+  attrs : List (Str × Str) := []     -- attribute name and value as written (a text in its quotes, a number as it is)
   deriving Repr, DecidableEq, Inhabited
 
 def ecuCmStmts (es : List WEcu) : List FileStmt := es.filterMap fun e => e.comment.map fun c => .cm (.bu e.name) c
@@ -795,5 +796,39 @@ def WEcu.expect (e : WEcu) : REcu := { name := e.name, comment := e.comment }
 def wfEcus (es : List WEcu) : Bool :=
   es.all (fun e => isIdent e.name && e.name.length ≥ 2 && (match e.comment with | some c => wfComment c | none => true)) &&
   decide ((es.map (·.name)).Nodup)
+
+/-! ## attribute definitions, their defaults, the attributes of the ECUs and of the matrix
+
+`BA_DEF_` lines (all levels, in the order of the file), `BA_DEF_DEF_` lines, `BA_ .. BU_` lines ECU by ECU, then the `BA_` lines of the
+matrix - between the comments and the value tables, as `dump` writes them. -/
+
+def defStmts (ds : List DefLine) : List FileStmt := ds.map fun d => .one (.adef d)
+def defdefStmts (dds : List DefDefLine) : List FileStmt := dds.map fun d => .one (.defdef d)
+def ecuBaStmts (es : List WEcu) : List FileStmt := es.flatMap fun e => e.attrs.map fun kv => .one (.ba ⟨kv.1, .ecu e.name, kv.2⟩)
+def globalBaStmts (ga : List (Str × Str)) : List FileStmt := ga.map fun kv => .one (.ba ⟨kv.1, .global, kv.2⟩)
+
+def writeCoreD (es : List WEcu) (ds : List DefLine) (dds : List DefDefLine) (ga : List (Str × Str)) (fs : List WFrame) : List Str :=
+  [renderBu (es.map (·.name)), []] ++ writeFrames (fs.map WFrame.block) ++
+  writeFile ((fs.flatMap WFrame.txStmts ++ fs.flatMap WFrame.cmStmts ++ fs.flatMap WFrame.sigCmStmts ++ ecuCmStmts es) ++
+    ((defStmts ds ++ defdefStmts dds ++ ecuBaStmts es ++ globalBaStmts ga) ++
+     (fs.flatMap WFrame.valStmts ++ fs.flatMap WFrame.valtypeStmts ++ fs.flatMap WFrame.grpStmts ++ fs.flatMap WFrame.mulStmts)))
+
+/-- a dictionary after the assignments `d[k] = v.strip()` in their order -/
+def attrsOf (kvs : List (Str × Str)) : List (Str × Str) := kvs.foldl (fun a kv => assocSet a kv.1 (stripWs kv.2)) []
+
+/-- the definitions the reader is expected to hold: each `BA_DEF_` line, with the value of the last `BA_DEF_DEF_` line of its name -/
+def expectDefs (ds : List DefLine) (dds : List DefDefLine) : List RDef :=
+  ds.map fun d => { level := d.level, name := d.name, definition := d.definition,
+                    default := dds.foldl (fun acc dd => if d.name == dd.name && d.level != .env then some dd.value else acc) none }
+
+def WEcu.expectA (e : WEcu) : REcu := { name := e.name, comment := e.comment, attrs := attrsOf e.attrs }
+
+/-- definitions: well-formed lines the constructor of `Define` accepts, pairwise different in level and name -/
+def wfDefs (ds : List DefLine) : Bool :=
+  ds.all (fun d => wfDef d && defineOk d.definition) && decide ((ds.map fun d => (d.level, d.name)).Nodup)
+
+/-- attribute lines of one level: well formed, and numeric where the definition of that level says so -/
+def wfAttrs (defs : List RDef) (lvl : Level) (target : BaTarget) (kvs : List (Str × Str)) : Bool :=
+  kvs.all fun kv => wfBa ⟨kv.1, target, kv.2⟩ && numericOk { defs := defs } lvl kv.1 kv.2
 
 end CanVerif.Dbc
